@@ -570,3 +570,113 @@ def gen_rules_pass(r, lims):
 
     base = r.choice([0, 0, 100, 215])
     return pt, base, build_pass(rules, base=base, min_pre=min_pre, max_pre=max_pre, pconstraint=pcons, fix=fix if k < 0.6 else None)
+
+
+# ---------------------------------------------------------------------------------------------------------------------------
+# Gloc / Glat (GlyphCache::Loader, sparse)
+
+def build_glyph_tables(r, nglyphs, version, long_fmt, attribids=False, num_attrs=None, hostile=0.0):
+    """-> (Gloc, Glat): `nglyphs` glyphs with a few run-length entries each (and, for version 3, an octabox header with sub-boxes).
+    `hostile` is the chance per glyph of an irregular entry: a zero value, a run of 0, keys that go backwards or repeat, a run that
+    reaches beyond the glyph's data, a key near 65535, no entry at all"""
+    wide = version >= 0x00020000
+    glat = bytearray(struct.pack(">I", version))
+    if version >= 0x00030000:
+        glat += struct.pack(">I", r.choice([0, 1]))
+    offs = []
+    maxkey = 0
+    for g in range(nglyphs):
+        offs.append(len(glat))
+        if version >= 0x00030000:
+            bmap = r.choice([0, 0, 1, 3, 0x8001, 0x00F0, r.randrange(65536)]) if r.random() < 0.5 else 0
+            glat += struct.pack(">H", bmap) + bytes(r.randrange(256) for _ in range(4 + 8 * bin(bmap).count("1")))
+        key = 0
+        nent = r.randrange(1, 4)
+        h = r.random() < hostile
+        for e in range(nent):
+            key += r.randrange(0, 30)
+            run = r.randrange(1, 5)
+            vals = [r.randrange(1, 65536) for _ in range(run)]
+            if h:
+                m = r.random()
+                if m < 0.15:
+                    vals[r.randrange(run)] = 0
+                elif m < 0.3:
+                    run_field = 0
+                elif m < 0.45:
+                    key = max(0, key - r.randrange(1, 40))
+                elif m < 0.55:
+                    key = 65535 - r.randrange(0, 3)
+                elif m < 0.7:
+                    run += r.randrange(1, 4)          # the run field claims more values than follow
+                elif m < 0.8:
+                    vals = []
+            run_field = locals().get("run_field", run)
+            kk = key & (0xFFFF if wide else 0xFF)
+            glat += (struct.pack(">HH", kk, run_field & 0xFFFF) if wide else bytes([kk, run_field & 0xFF]))
+            glat += b"".join(struct.pack(">H", v) for v in vals)
+            if "run_field" in locals():
+                del run_field
+            key += len(vals)
+            maxkey = max(maxkey, key)
+        if h and r.random() < 0.15:
+            del glat[offs[-1]:]                        # a glyph without data
+    offs.append(len(glat))
+    na = num_attrs if num_attrs is not None else min(0x3000, max(1, maxkey + 1 + r.randrange(0, 3)))
+    flags = (1 if long_fmt else 0) | (2 if attribids else 0)
+    gloc = bytearray(struct.pack(">IHH", 0x00010000, flags, na))
+    for o in offs:
+        gloc += struct.pack(">I", o & 0xFFFFFFFF) if long_fmt else struct.pack(">H", o & 0xFFFF)
+    if attribids:
+        gloc += b"".join(struct.pack(">H", i) for i in range(na))
+    return bytes(gloc), bytes(glat)
+
+
+def mutate_glyph_tables(r, gloc, glat):
+    """-> (Gloc, Glat): one of the numbers `GlyphCache::Loader` computes with changed"""
+    gloc = bytearray(gloc)
+    glat = bytearray(glat)
+    m = r.random()
+    if m < 0.12 and len(gloc) > 12:
+        # the last glyph's data squeezed against the end of Glat: its start a few bytes before the end, its end the end
+        w = 4 if gloc[5] & 1 else 2
+        n = (len(gloc) - 8) // w
+        if gloc[5] & 2:
+            n = max(0, n - int.from_bytes(gloc[6:8], "big") * 2 // w)
+        if n >= 2:
+            o = 8 + w * (n - 2)
+            gloc[o:o + w] = (max(0, len(glat) - r.choice([1, 1, 2, 3, 4, 5, 6, 7, 8])) & ((1 << (8 * w)) - 1)).to_bytes(w, "big")
+            gloc[o + w:o + 2 * w] = (len(glat) & ((1 << (8 * w)) - 1)).to_bytes(w, "big")
+    elif m < 0.3 and len(gloc) > 8:
+        w = 4 if gloc[5] & 1 else 2
+        n = (len(gloc) - 8) // w
+        if gloc[5] & 2:
+            n = max(0, n - int.from_bytes(gloc[6:8], "big") * 2 // w)       # (the attribute-id array is not offsets)
+        if n:
+            # often one of the last offsets: the last glyphs are the ones whose data ends where the table ends
+            o = 8 + w * (r.randrange(n) if r.random() < 0.5 else max(0, n - 1 - r.randrange(0, 3)))
+            v = int.from_bytes(gloc[o:o + w], "big")
+            nv = r.choice([0, 1, v + 1, max(0, v - 1), v + 2, v + 4, v + 6, len(glat), len(glat) - 1, len(glat) + 1, (1 << (8 * w)) - 1, r.randrange(len(glat) + 2)]) & ((1 << (8 * w)) - 1)
+            gloc[o:o + w] = nv.to_bytes(w, "big")
+    elif m < 0.45 and len(gloc) >= 8:
+        c = r.random()
+        if c < 0.3:
+            gloc[0:4] = struct.pack(">I", r.choice([0, 0x00010000, 0x0001FFFF, 0x00020000, 0x80000000, 0xFFFFFFFF]))
+        elif c < 0.6:
+            gloc[4:6] = struct.pack(">H", r.choice([0, 1, 2, 3, 0xFFFF]))
+        else:
+            gloc[6:8] = struct.pack(">H", r.choice([0, 1, 2, 0x3000, 0x3001, 0xFFFF, r.randrange(1, 200)]))
+    elif m < 0.55:
+        gloc = gloc[: r.choice([0, 4, 7, 8, 9, 10, 12, max(0, len(gloc) - 1), max(0, len(gloc) - 2), max(0, len(gloc) - 4), r.randrange(len(gloc) + 1)])]
+    elif m < 0.65:
+        glat = glat[: r.choice([0, 3, 4, 5, 7, 8, max(0, len(glat) - 1), max(0, len(glat) - 2), r.randrange(len(glat) + 1)])]
+    elif m < 0.75 and len(glat) >= 4:
+        glat[0:4] = struct.pack(">I", r.choice([0x00010000, 0x00020000, 0x00030000, 0x0003FFFF, 0x00040000, 0x80000000, 0xFFFFFFFF, 0]))
+    elif len(glat) > 4:
+        for _ in range(r.randrange(1, 6)):
+            i = r.randrange(4, len(glat))
+            glat[i] = r.choice([0, 1, 2, 0xFF, glat[i] ^ (1 << r.randrange(8)), r.randrange(256)])
+    # a compressed Glat is another property's subject: keep the scheme bits clear
+    if len(glat) >= 8 and int.from_bytes(glat[0:4], "big") >= 0x00030000:
+        glat[4] &= 7
+    return bytes(gloc), bytes(glat)
